@@ -67,11 +67,11 @@ func (g *Gen) lookupContract(fn *ssa.Function) *Contract {
 		// method of an instantiated or external type without package (wrappers)
 	}
 	full := fn.String()
-	if c, ok := g.w.prelude[full]; ok {
+	if c, ok := g.w.prelude[full]; ok && (!c.Concrete || g.concrete) {
 		return c
 	}
 	if wk := wildcardKey(full); wk != "" {
-		if c, ok := g.w.prelude[wk]; ok {
+		if c, ok := g.w.prelude[wk]; ok && (!c.Concrete || g.concrete) {
 			return c
 		}
 	}
@@ -133,6 +133,19 @@ func (f *Frame) call(c *ssa.CallCommon, instr ssa.Value, st *State, reach string
 			if v, ok := f.sprintf(c, args, instr.Name()); ok {
 				return v
 			}
+		case "crypto/sha256.New":
+			g.useTheory("strings")
+			h := g.fresh(f.name(instr), "Iface")
+			c := g.newCell(f.prefix+instr.Name()+"_sha", "Str", types.Typ[types.String])
+			st.cells[c] = Val{Sort: "Str", Term: strLit("")}
+			g.hashState[h] = c
+			return Val{Sort: "Iface", Term: h, GoT: resT}
+		case "io.WriteString":
+			if c := g.hashState[args[0].Term]; c != nil && len(args) == 2 {
+				cur := g.load(st, &Addr{Cell: c}, nil)
+				st.cells[c] = Val{Sort: "Str", Term: g.def(f.name(instr)+"_w", "Str", fmt.Sprintf("(str_cat %s %s)", cur.Term, args[1].Term))}
+				return Val{Tuple: []Val{{Sort: "Int", Term: fmt.Sprintf("(str_len %s)", args[1].Term)}, {Sort: "Err", Term: "Err_nil"}}}
+			}
 		case "github.com/cosmos/cosmos-sdk/types.MustNewDecFromStr":
 			if fc, ok := c.Args[0].(*ssa.Const); ok && fc.Value != nil {
 				if v, ok := decLiteral(constantString(fc)); ok {
@@ -156,6 +169,23 @@ func (f *Frame) call(c *ssa.CallCommon, instr ssa.Value, st *State, reach string
 	if c.IsInvoke() {
 		if v, ok := f.codecCall(c, args, instr, st, reach, pos); ok {
 			return v
+		}
+		if hc := g.hashState[args[0].Term]; hc != nil {
+			// sha256 object: Write appends, Sum returns the digest of what was written (sha256raw, uninterpreted)
+			switch c.Method.Name() {
+			case "Write":
+				cur := g.load(st, &Addr{Cell: hc}, nil)
+				st.cells[hc] = Val{Sort: "Str", Term: g.def(f.name(instr)+"_w", "Str", fmt.Sprintf("(str_cat %s %s)", cur.Term, args[1].Term))}
+				return Val{Tuple: []Val{{Sort: "Int", Term: fmt.Sprintf("(str_len %s)", args[1].Term)}, {Sort: "Err", Term: "Err_nil"}}}
+			case "Sum":
+				cur := g.load(st, &Addr{Cell: hc}, nil)
+				g.trusted["crypto/sha256 (hash object modelled: Sum(nil) = sha256raw(bytes written))"] = true
+				d := fmt.Sprintf("(sha256raw %s)", cur.Term)
+				if args[1].Term != "Bytes_nil" {
+					d = fmt.Sprintf("(str_cat %s %s)", args[1].Term, d)
+				}
+				return Val{Sort: "Str", Term: g.def(f.name(instr), "Str", d), GoT: resT}
+			}
 		}
 		ct, key := g.lookupInvokeContract(c)
 		if ct != nil {
@@ -315,7 +345,9 @@ func (f *Frame) havocAll(st *State) {
 	g := f.g
 	var names []string
 	for n := range g.w.world {
-		names = append(names, n)
+		if g.worldAvailable(n) {
+			names = append(names, n)
+		}
 	}
 	for n := range g.sorts.heapUsed {
 		names = append(names, n)
@@ -509,6 +541,12 @@ func (f *Frame) applyContract(ct *Contract, key string, names []string, sig *typ
 	for _, m := range ct.Modifies {
 		f.havocSpecTarget(m, env, st)
 	}
+	if ct.Allocates {
+		// the callee may allocate: the allocation counter grows
+		oldA := g.heapGet(st, "$alloc")
+		na := g.heapHavoc(st, "$alloc")
+		g.assume(fmt.Sprintf("(> %s %s)", na, oldA))
+	}
 	res := f.freshResults(sig, st, rname)
 	post := g.newEnv(st, pre)
 	bind(post)
@@ -528,6 +566,8 @@ func shortKey(k string) string {
 
 func (f *Frame) freshResults(sig *types.Signature, st *State, rname string) Val {
 	g := f.g
+	g.resultMode = true
+	defer func() { g.resultMode = false }()
 	if sig == nil || sig.Results().Len() == 0 {
 		return Val{}
 	}
@@ -862,4 +902,23 @@ func (f *Frame) codecCall(c *ssa.CallCommon, args []Val, instr ssa.Value, st *St
 		return Val{}, true
 	}
 	return Val{}, false
+}
+
+// worldAvailable: a world component whose record type lives in a package that
+// is not loaded for this check cannot be referenced by the code under
+// verification (the package is not among its dependencies).
+func (g *Gen) worldAvailable(name string) bool {
+	wc := g.w.world[name]
+	if wc == nil {
+		return false
+	}
+	for _, m := range sortNameRe.FindAllString(wc.Sort, -1) {
+		if _, ok := g.sorts.structs[m]; ok {
+			continue
+		}
+		if !g.sorts.ensureByName(m, g.w.lookupType) {
+			return false
+		}
+	}
+	return true
 }
